@@ -19,7 +19,7 @@ type Prop struct{}
 func (Prop) ID() string    { return "C17" }
 func (Prop) Level() string { return "exploration" }
 func (Prop) Rule() string {
-	return "trie-sets / trie-seq (exhaustive): every valid pattern of 1..3 segments over {a,b,c,*} with an optional trailing '>' (105 patterns; thorough 1..4 segments, 425) - every pattern set of size <= 2 built fresh, and every ordered pair added then removed in both orders with a removal of an absent pattern in between - against every topic of 1..4 (thorough 1..5) segments over {a,b,c}; the trie's answer must equal the segment-wise reference matcher after every step and an emptied trie must hold no pattern and no node. trie-rand: PRNG add/remove sequences of 40-120 steps with multiplicities over 3-20 patterns. validate: every string of length <= 6 over {a,/,*,>} plus crafted ones through ValidateTopic/ValidatePattern against a reference well-formedness predicate (length/segment-count limits are not judged). node-directed: 16 hand-written corner scenarios (pattern-less subscribe, evict-then-close and close-then-evict with a shared pattern, '>' needs one segment, '*' is one segment, relayed fan-out without forward, identity binding, self-owned namespace, two streams of one peer, close-space then resubscribe, one copy for several matching patterns, non-member / revoked member, malformed topics and patterns) run twice through the same model and monitors. node-seq: PRNG sequences of 30-80 operations (subscribe incl. malformed pattern / bad space id / no patterns / by non-members and node peers, unsubscribe some/all/absent, publish direct/relayed/identity-mismatch/no-identity/invalid-topic/owned and unowned acc topics by members and non-members, open/close stream, evict with and without membership revocation, revalidate, membership change, close space) over 3-9 streams (shared peer ids, anonymous and node-peer streams), 2-3 spaces, 3-4 accounts, 1-2 other responsible nodes, followed by a teardown that withdraws every stream's interest by close / unsubscribe / evict / close-space in random order; non-trivial = at least one delivery, one rejected publish and one pattern removed by the teardown; distinct = operation list. client-seq: PRNG sequences of 30-70 operations on a client-role service (local subscribe/unsubscribe/CloseSpace, membership changes, inbound frames: valid, non-member, unowned acc topic, stale/future, 9 kinds of forgery, replay, invalid topic); non-trivial = at least one handler delivery and one blocked frame. race: 32 goroutines (24 stream drivers whose streams are closed by context cancel / failing write / EOF at a PRNG point of their subscribe/unsubscribe/publish frames, 4 evictors, 4 space closers) under -race; non-trivial = all three close modes occurred and something was delivered."
+	return "trie-sets / trie-seq (exhaustive): every valid pattern of 1..3 segments over {a,b,c,*} with an optional trailing '>' (105 patterns; thorough 1..4 segments, 425) - every pattern set of size <= 2 built fresh, and every ordered pair added then removed in both orders with a removal of an absent pattern in between - against every topic of 1..4 (thorough 1..5) segments over {a,b,c}; the trie's answer must equal the segment-wise reference matcher after every step and an emptied trie must hold no pattern and no node. trie-rand: PRNG add/remove sequences of 40-120 steps with multiplicities over 3-20 patterns. validate: every string of length <= 6 over {a,/,*,>} plus crafted ones through ValidateTopic/ValidatePattern against a reference well-formedness predicate (length/segment-count limits are not judged). node-directed: 16 hand-written corner scenarios (pattern-less subscribe, evict-then-close and close-then-evict with a shared pattern, '>' needs one segment, '*' is one segment, relayed fan-out without forward, identity binding, self-owned namespace, two streams of one peer, close-space then resubscribe, one copy for several matching patterns, non-member / revoked member, malformed topics and patterns) run twice through the same model and monitors. node-seq: PRNG sequences of 30-80 operations (subscribe incl. malformed pattern / bad space id / no patterns / by non-members and node peers, unsubscribe some/all/absent, publish direct/relayed/identity-mismatch/no-identity/invalid-topic/owned and unowned acc topics by members and non-members, open/close stream, evict with and without membership revocation, revalidate, membership change, close space) over 3-9 streams (shared peer ids, anonymous and node-peer streams), 2-3 spaces, 3-4 accounts, 1-2 other responsible nodes, followed by a teardown that withdraws every stream's interest by close / unsubscribe / evict / close-space in random order; non-trivial = at least one delivery, one rejected publish and one pattern removed by the teardown; distinct = operation list. client-seq: PRNG sequences of 30-70 operations on a client-role service (local subscribe/unsubscribe/CloseSpace, membership changes, inbound frames: valid, non-member, unowned acc topic, stale/future, 9 kinds of forgery, replay, invalid topic; a quarter of the valid frames are preceded by a forged twin carrying the same message id; a sixth of the cases contain one flood of 4128 forged frames with fresh ids ahead of a replay); non-trivial = at least one handler delivery and one blocked frame. race: 32 goroutines (24 stream drivers whose streams are closed by context cancel / failing write / EOF at a PRNG point of their subscribe/unsubscribe/publish frames, 4 evictors, 4 space closers) under -race; non-trivial = all three close modes occurred and something was delivered."
 }
 func (Prop) Assumptions() []string {
 	return []string{
